@@ -403,6 +403,13 @@ func runC13(c *ctx) {
 			return
 		}
 		c.count("token_positions_checked", int64(len(sc.Toks)))
+		if c.res.Evaluations%701 == 1 {
+			t := text
+			if len(t) > 300 {
+				t = t[:120] + fmt.Sprintf(" …(%d bytes)… ", len(text)-240) + t[len(t)-120:]
+			}
+			c.sample(map[string]any{"variant": name, "text": t, "tokens": len(sc.Toks), "same_result_as_canonical_layout": true})
+		}
 	}
 	for bi, b := range bases {
 		canon := layoutTokens(b.toks, nil, layout{finalNL: true})
